@@ -742,9 +742,9 @@ func checkC20(tier string) {
 	}
 	// directed histories first (these are also the witnesses of recorded findings)
 	r.RunBatch(mon.Batch{Worker: "c20seq", Tag: "directed", N: len(c20Directed()), Chunk: 1, Parallel: 8, Params: c20Params{Directed: true}, Timeout: 2 * time.Minute, OnDeath: onDeath("seq")})
-	n := r.Pick(20000, 600000)
+	n := r.Pick(60000, 2000000)
 	r.RunBatch(mon.Batch{Worker: "c20seq", N: n, Chunk: (n + 15) / 16, Parallel: 16, Params: c20Params{}, Timeout: 20 * time.Minute, OnDeath: onDeath("seq")})
-	rounds := r.Pick(48, 800)
+	rounds := r.Pick(96, 2400)
 	r.RunBatch(mon.Batch{Worker: "c20conc", Tag: "conc-plain", N: rounds, Chunk: (rounds + 7) / 8, Parallel: 8, Timeout: 20 * time.Minute, OnDeath: onDeath("conc")})
 	// race-detector pass over the same concurrent workload
 	raceBin, err := mon.BuildSelf("vcheck.race", "-race")
